@@ -247,6 +247,76 @@ class CondSpace:
             return not same
         return False
 
+    def _interval(self, subj, reg):
+        """(lo, hi, lo_closed, hi_closed) of the numeric values a region stands for; None for non-numeric regions."""
+        if reg[0] != "n":
+            return None
+        inf = float("inf")
+        fin = sorted({float(c[2]) for c in self.subj_consts.get(subj, ()) if c[0] == "c" and c[1] in ("int", "float") and c[2] not in (inf, -inf)})
+        v = float(reg[1])
+        if v in fin or v in (inf, -inf) or (subj, reg[1]) in self.singletons:
+            return (v, v, True, True)
+        lo = max([c for c in fin if c < v], default=-inf)
+        hi = min([c for c in fin if c > v], default=inf)
+        return (lo, hi, False, False)
+
+    def feasible(self, val):
+        """Reject valuations that contradict themselves across variables: x == y with x and y in disjoint regions (also through chains of
+        equalities), x < y with every value of x's region above y's."""
+        parent = {}
+
+        def find(x):
+            while parent.get(x, x) != x:
+                x = parent[x]
+            return x
+        pairs = [(k[1], v) for k, v in val.items() if k[0] == "pair"]
+        if not pairs:
+            return True
+        for (a, b), rel in pairs:
+            if rel == "eq":
+                parent[find(a)] = find(b)
+        box = {}        # class -> interval / ("v", value)
+        for k, reg in val.items():
+            if k[0] != "subj":
+                continue
+            c = find(k[1])
+            iv = self._interval(k[1], reg)
+            cur = box.get(c)
+            if iv is None:
+                if reg[1] == _OTHER:
+                    continue
+                if cur is not None and cur != ("v", reg[1]):
+                    return False
+                box[c] = ("v", reg[1])
+                continue
+            if cur is None:
+                box[c] = iv
+            elif cur[0] == "v":
+                return False
+            else:
+                lo, hi = max(cur[0], iv[0]), min(cur[1], iv[1])
+                lc = (cur[2] if cur[0] >= iv[0] else True) and (iv[2] if iv[0] >= cur[0] else True)
+                hc = (cur[3] if cur[1] <= iv[1] else True) and (iv[3] if iv[1] <= cur[1] else True)
+                if lo > hi or (lo == hi and not (lc and hc)):
+                    return False
+                box[c] = (lo, hi, lc, hc)
+        for (a, b), rel in pairs:
+            if rel == "eq":
+                continue
+            ia, ib = box.get(find(a)), box.get(find(b))
+            if find(a) == find(b):
+                return False
+            if ia is None or ib is None or ia[0] == "v" or ib[0] == "v":
+                continue
+            if rel == "gt":
+                ia, ib = ib, ia
+            # need some x in ia, y in ib with x < y
+            if ia[0] > ib[1] or (ia[0] == ib[1] and (ia[2] or ib[3]) and ia[0] == ia[1] == ib[0]):
+                return False
+            if ia[0] >= ib[1]:
+                return False
+        return True
+
     def describe(self, val):
         parts = []
         for k, v in val.items():
@@ -318,6 +388,8 @@ def compare_trees(code, spec, leaf_eq, alias=None, assume=None, int_subjects=Non
             if assume is not None and not space.truth(assume, val):
                 return
             a, b = select(code, space, val), select(spec, space, val)
+            if not space.feasible(val):
+                return
         except _Need as n:
             rs = regions.get(n.key)
             if rs is None:
